@@ -767,7 +767,7 @@ func models(run *report.Run, t *testing.T) []*explore.Model {
 	budget := 25 * time.Second
 	if run.Thorough() {
 		depth, nd = 12, 4
-		budget = 150 * time.Second
+		budget = 100 * time.Second
 	}
 	var ms []*explore.Model
 	for _, c := range configs(run.Thorough()) {
